@@ -25,6 +25,14 @@ DIRECTED = [
     ("idle-wires-only", {"tensors": [[-1, [2, 3, 2, 3], [1, 2, 1, 2], None]], "bonds": None, "data": {}}),
     ("idle-wire-after-tensor",
      {"tensors": [[0, [2], [5], "t"], [-1, [3, 3, 2, 2, 2], [1, 1, 5, 2, 2], None]], "bonds": None, "data": {"t": D([2], [1, 2])}}),
+    # identity wires AFTER open axes that share a bond, dimensions differ (position in the compressed output != logical position)
+    ("idle-wire-after-repeated-open-bond",
+     {"tensors": [[0, [3], [0], "t"], [-1, [3, 3, 2, 2], [0, 0, 1, 1], None]], "bonds": None, "data": {"t": D([3], [1, 2, -1])}}),
+    ("two-idle-wires-after-repeated-open-bonds-dim1",
+     {"tensors": [[4, [2, 3], [6, 2], "t"], [-1, [2, 2, 2, 3, 1, 3, 1, 3, 2, 2], [6, 6, 6, 2, 9, 2, 9, 11, -3, -3], None],
+                  ], "bonds": [[6, [4, -1, -1, -1]], [2, [-1, 4, -1]], [9, [-1, -1]], [11, [-1, -1]], [-3, [-1, -1]]],
+      "data": {"t": D([2, 3], [1, 2, 3, -1, 0, 2])}}),
+    ("idle-wires-only-mixed-dimensions", {"tensors": [[-1, [3, 3, 3, 1, 2, 1, 2], [5, 5, 5, 0, 1, 0, 1], None]], "bonds": None, "data": {}}),
     # single tensor, open axes a non-identity permutation of its legs (defect #7)
     ("single-leaf-permuted",
      {"tensors": [[8, [2, 1, 3], [0, 1, 2], "a"], [-1, [3, 2, 1], [2, 0, 1], None]], "bonds": None,
@@ -261,6 +269,141 @@ def probe_permute(net, tree, cnt, rng, nterm=None, amap=None):
     return terms, fails
 
 
+def _snap_dict(d):
+    return {k: (id(v), np.array(v, copy=True)) for k, v in d.items()}
+
+
+def _dict_unchanged(d, snap):
+    return set(d) == set(snap) and all(id(d[k]) == snap[k][0] and np.array_equal(d[k], snap[k][1]) for k in snap)
+
+
+def probe_history(desc, scaffold, rng):
+    """A history of contraction calls on ONE network / ONE tree / ONE tensor dictionary; after every
+    step the result is compared with the brute-force defining sum of the CURRENT tensors (nothing may
+    be remembered from an earlier call) and the caller's dictionary must be left as it was.
+    Returns [(sig, expected, observed)]."""
+    from qib.tensor_network.tensor_network import to_full_tensor
+    from qib.tensor_network.contraction_tree import perform_tree_contraction
+    fails = []
+    net = tn.build(desc)
+    stn = net.net
+
+    def dense_ok(cnt, amap, ref):
+        cnt = np.asarray(cnt)
+        try:
+            if tuple(cnt.shape[i] for i in amap) != tuple(ref.shape):
+                return False
+            return np.array_equal(to_full_tensor(cnt, list(amap)), ref)
+        except Exception:
+            return False
+
+    try:
+        ref = tn.ref_dense(stn, net.data)
+        # ---- the high-level calls, twice each
+        for rnd in (1, 2):
+            c, am = net.contract_einsum()
+            if not dense_ok(c, am, ref):
+                fails.append(("contract_einsum:call-%d-on-the-same-network-differs" % rnd, "defining sum", "differs"))
+            c, am, tree = net.contract_tree(copy.deepcopy(scaffold))
+            if not dense_ok(c, [int(a) for a in am], ref):
+                fails.append(("contract_tree:call-%d-on-the-same-network-differs" % rnd, "defining sum", "differs"))
+        amap = [int(a) for a in am]
+        # ---- the tree by hand, repeatedly with the same dictionary
+        tdict = {t.tid: np.asarray(net.data[t.dataref]) for t in stn.tensors.values() if t.tid != -1}
+        snap = _snap_dict(tdict)
+        r0 = np.asarray(perform_tree_contraction(tree, tdict))
+        if not _dict_unchanged(tdict, snap):
+            fails.append(("perform_tree_contraction:modifies-the-callers-tensor-dictionary", sorted(snap), sorted(tdict, key=str)))
+            tdict = {k: v[1] for k, v in snap.items()}
+        if not dense_ok(r0, amap, ref):
+            fails.append(("perform_tree_contraction:first-call-not-the-defining-sum", "defining sum", "differs"))
+        r0b = np.asarray(perform_tree_contraction(tree, tdict))
+        if r0b.shape != r0.shape or not np.array_equal(r0b, r0):
+            fails.append(("perform_tree_contraction:second-call-differs", "same tensor", "differs"))
+        # ---- permute an inner (non-root) node: nothing may change
+        inner = [n for pth, n in tn.tree_nodes(tree) if pth and not n.is_leaf and n.ndim >= 2]
+        if inner:
+            nd = rng.choice(inner)
+            pm = list(range(nd.ndim))
+            rng.shuffle(pm)
+            nd.permute_axes(np.array(pm))
+            r1 = np.asarray(perform_tree_contraction(tree, tdict))
+            if r1.shape != r0.shape or not np.array_equal(r1, r0):
+                fails.append(("permute_axes:inner-node:later-contraction-with-the-same-dictionary-differs", "unchanged", "differs"))
+        # ---- permute the root: the result is transposed, the axes map moves with it
+        if not tree.is_leaf and tree.ndim >= 2:
+            pm = list(range(tree.ndim))
+            while pm == list(range(tree.ndim)):
+                rng.shuffle(pm)
+            tree.permute_axes(np.array(pm))
+            amap = [pm.index(a) for a in amap]
+            r2 = np.asarray(perform_tree_contraction(tree, tdict))
+            if r2.shape != tuple(r0.shape[q] for q in pm) or not np.array_equal(r2, r0.transpose(pm)):
+                fails.append(("permute_axes:root:later-contraction-with-the-same-dictionary-ignores-it", "transposed tensor", "differs"))
+        # ---- replace the entries of one leaf in the dictionary
+        if not tree.is_leaf:
+            leaves = [n.tid for _, n in tn.tree_nodes(tree) if n.is_leaf]
+            tid = rng.choice(leaves)
+            old = tdict[tid]
+            new = np.array([rng.choice([-2, -1, 1, 2, 3]) for _ in range(max(1, old.size))], dtype=float).reshape(old.shape) if old.ndim else np.array(float(rng.choice([2, 3, -1])))
+            tdict[tid] = new
+            ref3 = tn.ref_dense(stn, net.data, by_tid={tid: new})
+            r3 = np.asarray(perform_tree_contraction(tree, tdict))
+            if not dense_ok(r3, amap, ref3):
+                fails.append(("perform_tree_contraction:stale-result-after-replacing-a-leaf-tensor", "defining sum of the current tensors", "differs"))
+            # ---- a second tree on the same dictionary
+            tids = [t for t in stn.tensors if t != -1]
+            sc2 = tn.rand_scaffold(rng, tids)
+            tree2 = stn.build_contraction_tree(copy.deepcopy(sc2))
+            net2 = tn.build(desc)      # axes map of the second tree from a fresh contract_tree on equal data
+            c2, am2, tree2b = net2.contract_tree(copy.deepcopy(sc2))
+            r4 = np.asarray(perform_tree_contraction(tree2b, tdict))
+            if not dense_ok(r4, [int(a) for a in am2], ref3):
+                fails.append(("perform_tree_contraction:second-tree-on-the-same-dictionary-differs", "defining sum of the current tensors", "differs"))
+        # ---- surgery between contractions on the same network object: no stale caches
+        n_open = net.num_open_axes
+        if n_open >= 2:
+            pm = list(range(n_open))
+            rng.shuffle(pm)
+            net.transpose(pm)
+        tids = [t for t in stn.tensors if t != -1]
+        sc = copy.deepcopy(scaffold)
+        if tids:
+            a = rng.choice(tids)
+            c_new = max(list(stn.tensors) + [0]) + 3
+            stn.rename_tensor(a, c_new)
+
+            def ren(x):
+                return (c_new if x == a else x) if isinstance(x, int) else [ren(x[0]), ren(x[1])]
+            sc = ren(sc)
+        if stn.bonds:
+            b = rng.choice(list(stn.bonds))
+            stn.rename_bond(b, max(list(stn.bonds) + [0]) + 2)
+        for step in ("after-transpose-and-renames", "after-merge"):
+            if step == "after-merge":
+                sh = net.shape
+                if not sh:
+                    break
+                ax = rng.randrange(len(sh))
+                w = np.array([rng.choice([-1, 1, 2]) for _ in range(sh[ax] * 2)], dtype=float).reshape(sh[ax], 2)
+                from qib.tensor_network import TensorNetwork
+                net.merge(TensorNetwork.wrap(w, "hist_w"), [(ax, 0)])
+                sc = [sc, max(t for t in stn.tensors)] if tids else max(t for t in stn.tensors)
+            refn = tn.ref_dense(stn, net.data)
+            c, am = net.contract_einsum()
+            if not dense_ok(c, am, refn):
+                fails.append(("contract_einsum:%s:not-the-defining-sum-of-the-current-network" % step, "defining sum", "differs"))
+            if not has_idle_bond(stn) and [t for t in stn.tensors if t != -1]:
+                leafroot = isinstance(sc, int)
+                if not (leafroot and leaf_root_class(stn, sc)):
+                    c, am, _ = net.contract_tree(copy.deepcopy(sc))
+                    if not dense_ok(c, [int(x) for x in am], refn):
+                        fails.append(("contract_tree:%s:not-the-defining-sum-of-the-current-network" % step, "defining sum", "differs"))
+    except Exception as e:
+        fails.append(("contraction-history:exception:" + type(e).__name__, "runs", repr(e)[:200]))
+    return fails
+
+
 def chain_desc(N):
     """N matrices [[1,1],[0,1]] in a row: N+1 bonds, value [[1,N],[0,1]]"""
     return {"tensors": [[i, [2, 2], [i, i + 1], "m"] for i in range(N)] + [[-1, [2, 2], [0, N], None]],
@@ -316,7 +459,10 @@ def run(ctx):
                        "skeleton of is_consistent, its pair-repetition test, as_einsum's first-occurrence rule, transpose's distinctness test; "
                        "all loops (rename, merge_tensors/bonds, get_bond_axes, as_einsum unification/condensation, tree builder) stay hand-modelled")
     ctx.rules.append("random consistent networks (0-6 tensors, degree<=4, bond dims 1-3, hyper-bonds<=5 legs, multi-edges, self-traces, "
-                     "shared open bonds, identity wires, negative ids) with small Gaussian-integer data; scaffolds: all binary trees with "
+                     "shared open bonds, identity wires, negative ids) with small Gaussian-integer data; open-structure networks (0-2 tensors, several identity wires at "
+                     "every position relative to repeated open bonds, all dimensions independently from {1,2,3}); contraction HISTORIES per network (both "
+                     "contractions twice, perform_tree_contraction repeatedly on one dictionary, permute_axes on inner node / root, a replaced leaf tensor, a second "
+                     "tree, then transpose/rename/merge on the same object) against the brute-force defining sum of the current state; scaffolds: all binary trees with "
                      "both child orders for n<=3 (thorough: n<=5), random otherwise. non-trivial = >=2 tensors and one of hyper-bond, "
                      "multi-edge, shared open bond, self-trace")
     ctx.lib(["TN/TNCheck", "TN/TNTreeCheck", "TN/TNConsistentConv", "TN/TNGenBase"])
@@ -332,6 +478,9 @@ def run(ctx):
     for _ in range(300 if ctx.thorough else 70):
         d, feats = tn.gen_net(rng, nt_max=6, open_max=4, cap=60000 if ctx.thorough else 30000)
         nets.append(("random", d, feats))
+    for i in range(240 if ctx.thorough else 60):
+        d, feats = tn.gen_open_net(rng, [None, None, "wires-last", "wires-first"][i % 4])
+        nets.append(("open-structure", d, feats))
     exhaustive_budget = {4: 20 if ctx.thorough else 1, 5: 4 if ctx.thorough else 0, 6: 0}
     ntrees = 0
     for name, desc, feats in nets:
@@ -373,9 +522,17 @@ def run(ctx):
             ctx.count("exhaustive_scaffolds_n=%d" % nt)
         else:
             scaffolds = [tn.rand_scaffold(rng, tids) for _ in range(6 if ctx.thorough else 3)]
+        did_history = False
         for sc in scaffolds:
             tinp = dict(inp, scaffold=sc)
             obs, fails, status = probe_tree(net, ref, sc, rng)
+            if status == "ok" and not did_history and tn.ref_size(net.net)[0] <= 5000:
+                did_history = True
+                hseed = rng.randrange(10 ** 9)
+                import random as _random
+                for sig, e, g in probe_history(desc, sc, _random.Random(hseed)):
+                    ctx.fail(sig, tn.to_jsonable(dict(tinp, kind="history", hseed=hseed)), e, g)
+                ctx.count("contraction_histories")
             ctx.count("tree_" + status)
             for sig, e, g in fails:
                 ctx.fail(sig, tn.to_jsonable(tinp), e, g)
@@ -433,6 +590,12 @@ def run(ctx):
 
 def replay(ctx, data):
     inp, sig = data["input"], data["sig"]
+    if inp.get("kind") == "history":
+        import random as _random
+        for s, e, g in probe_history(inp["net"], inp["scaffold"], _random.Random(int(inp["hseed"]))):
+            if s == sig:
+                ctx.fail(sig, inp, e, g)
+        return
     if inp.get("kind") == "label-limit":
         for s, e, g in probe_label_limit(int(inp["chain"])):
             if s == sig:
